@@ -335,3 +335,155 @@ def replay_nested(cex):
     off = x['inner'][0] - x['outer'][0]
     same = np.array_equal(vols[0], vols[1][:, :, off:off + vols[0].shape[2]], equal_nan=True)
     return {'violates': not same, 'detail': '' if same else 'cost volume for %s differs from the slice of the volume for %s' % (x['inner'], x['outer'])}
+
+
+def locality(method='sad', ws=3, H=3, W=7, dmin=-1, dmax=1, crop=(1, 6), rows=None, zero_based=False, flip=False, masks=False,
+             with_median=False, cap=120, block=()):
+    """C13: processing a crop (tile) that contains a pixel's dependency cone gives the same disparity / flags / costs for that pixel as
+    processing the whole image, wherever the crop starts (column coordinates kept from the whole image, or restarted at 0);
+    flip=True: flipping both images vertically flips the outputs."""
+    import xarray as xr
+    from vf import symnp as S, instr
+    from vf.explore import EX, explore
+    from vf.hutil import Collector
+    from vf.harness import mc
+    from pandora.filter import AbstractFilter
+    import pandora.criteria as CR, pandora.matching_cost.matching_cost as MC
+    mc.install_stubs(S)
+    col = Collector(cap_s=cap, block=list(block))
+    info = {}
+    S.MODE['exact'] = True
+    h_ = ws // 2
+    c0, c1 = crop
+    r0, r1 = rows if rows else (0, H)
+
+    def h():
+        shapes = {}
+        L, li, lmk = mc.make_image(xr, S, EX, 'l', H, W, mask='sym' if masks else None, shapes=shapes)
+        R, ri, rmk = mc.make_image(xr, S, EX, 'r', H, W, mask='sym' if masks else None, shapes=shapes)
+        col.shapes = shapes
+        ex = {'locality': True, 'method': method, 'ws': ws, 'H': H, 'W': W, 'dmin': dmin, 'dmax': dmax, 'crop': list(crop), 'rows': list(rows) if rows else None,
+              'zero_based': zero_based, 'flip': flip, 'masks': masks, 'with_median': with_median}
+
+        def sub(ds_, arr, mk):
+            if flip:
+                a = S.SymArray(arr._a[::-1, :].copy(), 'x4'); m = S.SymArray(mk._a[::-1, :].copy(), 'i2') if mk is not None else None
+                cc0, hh, ww, rr0 = 0, H, W, 0
+            else:
+                a = S.SymArray(arr._a[r0:r1, c0:c1].copy(), 'x4'); m = S.SymArray(mk._a[r0:r1, c0:c1].copy(), 'i2') if mk is not None else None
+                cc0, hh, ww, rr0 = (0 if zero_based else c0), r1 - r0, c1 - c0, (0 if zero_based else r0)
+            d = xr.Dataset({"im": (["row", "col"], a)}, coords={"row": np.arange(rr0, rr0 + hh), "col": np.arange(cc0, cc0 + ww)})
+            d.attrs = dict(ds_.attrs)
+            if m is not None:
+                d["msk"] = xr.DataArray(m, dims=["row", "col"])
+            return d, hh, ww
+        outs = []
+        for which in ('whole', 'part'):
+            if which == 'whole':
+                Lc, Rc, hh, ww = L.copy(deep=True), R.copy(deep=True), H, W
+            else:
+                (Lc, hh, ww), (Rc, _, _) = sub(L, li, lmk), sub(R, ri, rmk)
+            mc.add_disparity(xr, S, Lc, hh, ww, dmin, dmax)
+            try:
+                o = mc.run_chain(S, Lc, Rc, method, ws, upto='wta')
+                if with_median:
+                    AbstractFilter(cfg={"filter_method": "median", "filter_size": 3}).filter_disparity(o['disp'])
+            except S.Unsupported:
+                raise
+            except Exception as e:      # noqa
+                col.path_exception(e, label=which, extra=ex); return
+            outs.append(o)
+        whole, part = outs
+        props = []
+        rad = h_ + (1 if with_median else 0)
+        lo = min(dmin, 0); hi = max(dmax, 0)
+        if with_median:
+            lo, hi = lo, hi
+        for r in range(r0, r1) if not flip else range(H):
+            for c in range(c0, c1) if not flip else range(W):
+                if flip:
+                    pr, pc = H - 1 - r, c
+                    inside = True
+                else:
+                    pr, pc = r - r0, c - c0
+                    # the dependency cone must lie inside the crop (rows: +-radius; columns: +-radius extended by the interval)
+                    inside = (r - rad >= r0 and r + rad < r1 and c - rad + lo >= c0 and c + rad + hi < c1)
+                    if with_median:
+                        inside = inside and (c - rad - 1 + lo >= c0 and c + rad + 1 + hi < c1)
+                if not inside:
+                    continue
+                dw = whole['disp']["disparity_map"].data._a[r, c]; dp = part['disp']["disparity_map"].data._a[pr, pc]
+                mw = whole['disp']["validity_mask"].data._a[r, c]; mp = part['disp']["validity_mask"].data._a[pr, pc]
+                props.append(("same-disparity-and-flags-as-in-the-whole-image[%d,%d]" % (r, c), z3.And(S.term_eq(dw, dp, 'x4'), S.term_eq(mw, mp, 'u2'))))
+                if not with_median:
+                    cw = whole['cv']["cost_volume"].data; cp = part['cv']["cost_volume"].data
+                    props.append(("same-costs[%d,%d]" % (r, c), z3.And(*[S.term_eq(cw._a[r, c, k], cp._a[pr, pc, k], 'x4') for k in range(dmax - dmin + 1)])))
+        if not props:
+            props.append(("cone-interior-pixel-exists", z3.BoolVal(False)))
+        col.check_path(props, label='p%d' % len(EX.trace), extra=ex,
+                       witnesses=[("a-valid-compared-pixel-exists", z3.Or(*[(S.lift(whole['disp']["validity_mask"].data._a[r, c], 'u2') & 0b1111000011) == 0
+                                                                            for r in range(h_, H - h_) for c in range(h_, W - h_)]))])
+        info['fn'] = instr.fn_hash(CR.validity_mask, CR.allocate_left_mask, CR.allocate_right_mask, MC.AbstractMatchingCost.grid_estimation, MC.AbstractMatchingCost.cv_masked)
+    res, stats = explore(h, max_paths=16)
+    return col.result(stats, functions=info.get('fn', {}),
+                      bounds={'pipeline': '%s(window %d) -> wta%s' % (method, ws, ' -> median 3' if with_median else ''), 'image': [H, W], 'interval': [dmin, dmax],
+                              'crop columns': list(crop), 'crop rows': list(rows) if rows else 'all', 'crop coordinates': '0-based' if zero_based else 'kept', 'vertical flip': flip, 'masks': masks},
+                      stubs=['scipy.ndimage.binary_dilation = OR over the window, zero padded'])
+
+
+def replay_locality(cex):
+    import xarray as xr
+    from pandora import matching_cost, disparity
+    from pandora.criteria import validity_mask
+    from pandora.filter import AbstractFilter
+    x = cex['extra']; inp = cex['inputs']; H, W, ws = x['H'], x['W'], x['ws']
+    c0, c1 = x['crop']; r0, r1 = x['rows'] if x['rows'] else (0, H)
+    h_ = ws // 2
+
+    def run(li, ri, lm, rm, rr0, cc0):
+        hh, ww = li.shape
+
+        def mk(im, m):
+            d = xr.Dataset({"im": (["row", "col"], im.copy())}, coords={"row": np.arange(rr0, rr0 + hh), "col": np.arange(cc0, cc0 + ww)})
+            d.attrs = {"valid_pixels": 0, "no_data_mask": 1, "crs": None, "transform": None, "no_data_img": -9999}
+            if m is not None:
+                d["msk"] = xr.DataArray(m.copy(), dims=["row", "col"])
+            return d
+        L, R = mk(li, lm), mk(ri, rm)
+        L.coords["band_disp"] = ["min", "max"]
+        L["disparity"] = xr.DataArray(np.array([np.full((hh, ww), x['dmin']), np.full((hh, ww), x['dmax'])]), dims=["band_disp", "row", "col"]); L.attrs["disparity_source"] = [x['dmin'], x['dmax']]
+        m = matching_cost.AbstractMatchingCost(**{"matching_cost_method": x['method'], "window_size": ws})
+        a = L["disparity"].sel(band_disp="min").data; b = L["disparity"].sel(band_disp="max").data
+        cv = m.allocate_cost_volume(L, (a, b), None); cv = validity_mask(L, R, cv); cv = m.compute_cost_volume(L, R, cv); m.cv_masked(L, R, cv, a, b)
+        dm = disparity.AbstractDisparity(**{"disparity_method": "wta", "invalid_disparity": -9999}).to_disp(cv, L, R)
+        if x['with_median']:
+            AbstractFilter(cfg={"filter_method": "median", "filter_size": 3}).filter_disparity(dm)
+        return dm
+    li = np.array(inp['l'], np.float32).reshape(H, W); ri = np.array(inp['r'], np.float32).reshape(H, W)
+    lm = np.array(inp['lmsk'], np.int16).reshape(H, W) if x['masks'] else None; rm = np.array(inp['rmsk'], np.int16).reshape(H, W) if x['masks'] else None
+    try:
+        whole = run(li, ri, lm, rm, 0, 0)
+        if x['flip']:
+            part = run(li[::-1], ri[::-1], lm[::-1] if lm is not None else None, rm[::-1] if rm is not None else None, 0, 0)
+        else:
+            part = run(li[r0:r1, c0:c1], ri[r0:r1, c0:c1], lm[r0:r1, c0:c1] if lm is not None else None, rm[r0:r1, c0:c1] if rm is not None else None,
+                       0 if x['zero_based'] else r0, 0 if x['zero_based'] else c0)
+    except Exception as e:      # noqa
+        return {'violates': True, 'detail': 'chain raised %r' % (e,)}
+    rad = h_ + (1 if x['with_median'] else 0); lo = min(x['dmin'], 0); hi = max(x['dmax'], 0)
+    bad = []
+    for r in range(H):
+        for c in range(W):
+            if x['flip']:
+                pr, pc = H - 1 - r, c
+            else:
+                if not (r - rad >= r0 and r + rad < r1 and c - rad + lo >= c0 and c + rad + hi < c1):
+                    continue
+                if x['with_median'] and not (c - rad - 1 + lo >= c0 and c + rad + 1 + hi < c1):
+                    continue
+                pr, pc = r - r0, c - c0
+            a, b = whole["disparity_map"].data[r, c], part["disparity_map"].data[pr, pc]
+            ma, mb = whole["validity_mask"].data[r, c], part["validity_mask"].data[pr, pc]
+            if not (a == b or (np.isnan(a) and np.isnan(b))) or ma != mb:
+                bad.append('pixel (%d,%d): whole image gives %r/%d, the %s gives %r/%d' % (r, c, float(a), ma, 'flipped run' if x['flip'] else 'crop', float(b), mb))
+    return {'violates': bool(bad), 'detail': '; '.join(bad[:3])}
